@@ -185,6 +185,60 @@ let parse_case st : rnet =
   (match toks (pop st) with ["endcase"] -> () | t -> failwith ("endcase expected, got " ^ String.concat " " t));
   { rt_name = name; rt_desc = desc; rt_buses = bl }
 
+
+(* ------------------------------------------------------------------ Coq terms for the vm_compute cross-check *)
+let q s = let b = Buffer.create 16 in Buffer.add_char b '"';
+  String.iter (fun c -> if c = '"' then Buffer.add_string b "\"\"" else Buffer.add_char b c) s;
+  Buffer.add_char b '"'; Buffer.contents b
+let qs l = q (implode l)
+let zc z = let t = zs z in if String.length t > 0 && t.[0] = '-' then "(" ^ t ^ ")%Z" else "(" ^ t ^ ")%Z"
+let nc n = ns n ^ "%N"
+let bc b = if b then "true" else "false"
+let lst f l = "[" ^ String.concat "; " (List.map f l) ^ "]"
+let opt f = function None -> "None" | Some x -> "(Some " ^ f x ^ ")"
+let c_type t = Printf.sprintf "{| st_id := %s; st_name := %s; st_desc := %s; st_size := %s; st_kind := %s; st_signed := %s; st_min := %s; st_max := %s; st_scale := %s; st_offset := %s |}"
+    (nc t.st_id) (qs t.st_name) (qs t.st_desc) (zc t.st_size) (qs t.st_kind) (bc t.st_signed) (qs t.st_min) (qs t.st_max) (qs t.st_scale) (qs t.st_offset)
+let c_unit u = Printf.sprintf "{| su_id := %s; su_name := %s; su_desc := %s; su_kind := %s; su_symbol := %s |}"
+    (nc u.su_id) (qs u.su_name) (qs u.su_desc) (qs u.su_kind) (qs u.su_symbol)
+let c_enum e = Printf.sprintf "{| se_id := %s; se_name := %s; se_desc := %s; se_maxindex := %s; se_values := %s |}"
+    (nc e.se_id) (qs e.se_name) (qs e.se_desc) (zc e.se_maxindex)
+    (lst (fun v -> Printf.sprintf "{| ev_name := %s; ev_index := %s; ev_desc := %s |}" (qs v.ev_name) (zc v.ev_index) (qs v.ev_desc)) e.se_values)
+let c_attr a = Printf.sprintf "{| ra_h := %s; ra_name := %s; ra_eid := %s; ra_vals := %s |}" (nc a.ra_h) (qs a.ra_name) (qs a.ra_eid)
+    (lst (fun (i, v) -> Printf.sprintf "(%s, %s)" (zc i) (qs v)) a.ra_vals)
+let rec c_rsig = function
+  | RStd (h, a, n, d, r, ty, un) -> Printf.sprintf "(RStd %s %s %s %s %s %s %s)" (nc h) (lst c_attr a) (qs n) (qs d) (zc r) (c_type ty) (opt c_unit un)
+  | REnum (h, a, n, d, r, sz, en) -> Printf.sprintf "(REnum %s %s %s %s %s %s %s)" (nc h) (lst c_attr a) (qs n) (qs d) (zc r) (zc sz) (c_enum en)
+  | RMux (h, a, n, d, r, gc, gs, fx, groups) -> Printf.sprintf "(RMux %s %s %s %s %s %s %s %s %s)" (nc h) (lst c_attr a) (qs n) (qs d) (zc r) (zc gc) (zc gs) (lst nc fx) (lst (lst c_rsig) groups)
+let c_recv r = Printf.sprintf "{| rr_h := %s; rr_name := %s; rr_eid := %s; rr_num := %s; rr_id := %s; rr_attrs := %s |}" (nc r.rr_h) (qs r.rr_name) (qs r.rr_eid) (zc r.rr_num) (zc r.rr_id) (lst c_attr r.rr_attrs)
+let c_rmsg m = Printf.sprintf "{| rm_h := %s; rm_eid := %s; rm_attrs := %s; rm_recv := %s; rm_name := %s; rm_desc := %s; rm_static := %s; rm_canid := %s; rm_id := %s; rm_size := %s; rm_byteorder := %s; rm_cycle := %s; rm_sigs := %s |}"
+    (nc m.rm_h) (qs m.rm_eid) (lst c_attr m.rm_attrs) (lst c_recv m.rm_recv) (qs m.rm_name) (qs m.rm_desc) (bc m.rm_static) (zc m.rm_canid) (zc m.rm_id) (zc m.rm_size) (qs m.rm_byteorder) (zc m.rm_cycle) (lst c_rsig m.rm_sigs)
+let c_rnet r = Printf.sprintf "{| rt_name := %s; rt_desc := %s; rt_buses := %s |}" (qs r.rt_name) (qs r.rt_desc)
+    (lst (fun b -> Printf.sprintf "{| rb_h := %s; rb_attrs := %s; rb_builder := %s; rb_name := %s; rb_desc := %s; rb_baud := %s; rb_nifs := %s |}"
+             (nc b.rb_h) (lst c_attr b.rb_attrs)
+             (opt (fun x -> Printf.sprintf "{| bl_h := %s; bl_name := %s; bl_ops := %s |}" (nc x.bl_h) (qs x.bl_name)
+                      (lst (fun ((a, b), c) -> Printf.sprintf "(%s, %s, %s)" (zc a) (zc b) (zc c)) x.bl_ops)) b.rb_builder)
+             (qs b.rb_name) (qs b.rb_desc) (zc b.rb_baud)
+             (lst (fun x -> Printf.sprintf "{| rn_h := %s; rn_attrs := %s; rn_name := %s; rn_desc := %s; rn_id := %s; rn_msgs := %s |}"
+                      (nc x.rn_h) (lst c_attr x.rn_attrs) (qs x.rn_name) (qs x.rn_desc) (zc x.rn_id) (lst c_rmsg x.rn_msgs)) b.rb_nifs)) r.rt_buses)
+let c_block_of_obs line = match toks line with
+  | ["H"; n; t] -> Printf.sprintf "H %s %s" n (q (unhex t))
+  | ["P"; t] -> "Para " ^ q (unhex t)
+  | ["B"; t] -> "Bullet " ^ q (unhex t)
+  | ["R"] -> "Rule"
+  | "T" :: nc_ :: rest ->
+    let rec take k l acc = if k = 0 then (List.rev acc, l) else match l with x :: r -> take (k - 1) r (x :: acc) | [] -> failwith "T" in
+    let hdr, rest = take (int_of_string nc_) rest [] in
+    let rec rows k l = if k = 0 then [] else
+        match l with
+        | w :: r -> let cells, r' = take (int_of_string w) r [] in cells :: rows (k - 1) r'
+        | [] -> failwith "T rows" in
+    let rws = match rest with nr :: r -> rows (int_of_string nr) r | [] -> [] in
+    Printf.sprintf "Table %s %s" (lst (fun c -> q (unhex c)) hdr) (lst (lst (fun c -> q (unhex c))) rws)
+  | _ -> failwith "block"
+let coq_buf = Buffer.create 4096
+let coq_checks = ref []
+let coq_budget = ref 0
+
 let show_block = function
   | H (n, t) -> Printf.sprintf "H %d %s" (int_of_nat n) (hx (implode t))
   | Para t -> "P " ^ hx (implode t)
@@ -248,7 +302,8 @@ let oracles : (string * oracle) list =
 
 let () =
   let ic = open_in Sys.argv.(1) in
-  let verbose = Array.length Sys.argv > 2 in
+  let verbose = Array.length Sys.argv > 2 && Sys.argv.(2) = "-v" in
+  let coq_out = if Array.length Sys.argv > 4 && Sys.argv.(2) = "--coq" then (coq_budget := int_of_string Sys.argv.(4); Some Sys.argv.(3)) else None in
   let all = ref [] in
   (try while true do all := input_line ic :: !all done with End_of_file -> ());
   let st = { lines = List.rev !all } in
@@ -270,6 +325,13 @@ let () =
        let obs_dbc = dbcs () in
        (match pop st with "endobsall" -> () | _ -> failwith "endobsall expected");
        incr cases;
+       if !coq_budget > 0 && not obs_err && List.length observed < 300 then begin
+         decr coq_budget;
+         let o : oracle = fun _ -> Obj.magic o_id in
+         Buffer.add_string coq_buf (Printf.sprintf "Definition r_%s : rnet := %s.\nDefinition o_%s : list block := %s.\n" idx (c_rnet net) idx (lst c_block_of_obs observed));
+         coq_checks := Printf.sprintf "check_case r_%s o_%s %d %s" idx idx (List.length (save_raw o net))
+             (lst (fun l -> string_of_int (List.length l)) (dbc_raw o net)) :: !coq_checks
+       end;
        if not (wf_netb net) then begin
          incr bad; incr wf_false;
          Printf.printf "MISMATCH case %s [wf]: wf_netb is false on the raw network dumped from the implementation (hypothesis of the C15 theorems)\n" idx
@@ -311,5 +373,13 @@ let () =
      done
    with Failure m -> Printf.printf "DRIVER-ERROR %s\n" m; incr bad);
   Hashtbl.iter (fun k v -> Printf.printf "KIND %s %d\n" k v) kinds;
+  (match coq_out with
+   | Some f ->
+     let oc = open_out f in
+     output_string oc "From Coq Require Import ZArith List String.\nFrom Acme.C16 Require Import Model.\nFrom Acme.C15 Require Import Model ModelChk.\nImport ListNotations.\nLocal Open Scope string_scope.\n";
+     Buffer.output_buffer oc coq_buf;
+     output_string oc (Printf.sprintf "Definition M := Eval vm_compute in [%s].\nPrint M.\n" (String.concat "; " (List.rev !coq_checks)));
+     close_out oc
+   | None -> ());
   Printf.printf "WFCHECKED %d WFFALSE %d\n" !cases !wf_false;
   Printf.printf "CASES %d MISMATCHES %d\n" !cases !bad
